@@ -230,6 +230,8 @@ pub struct Rep {
     pub batches: u64,
     pub suppressed_followups: u64,
     pub counters: BTreeMap<String, u64>,
+    /// single-row reference outputs of the pool rows (evidence)
+    pub refs_json: Value,
     pub viols: Vec<Violation>,
     kept: BTreeMap<String, usize>,
 }
@@ -353,6 +355,7 @@ impl<'r, 's> Run<'r, 's> {
     fn judge<T: OutT>(&mut self, b: &Batch, layout: usize, form: &str, out: Result<T, String>, base_ok: Option<bool>, std_ok: Option<bool>) -> bool {
         self.rep.evals += 1;
         self.rep.bump(&format!("calls_form_{}", form), 1);
+        self.rep.bump(&format!("calls_layout_{}", LAYOUTS[layout]), 1);
         let nontrivial = b.sel.len() >= 2 && b.sel.iter().any(|&q| self.refs[q] != self.refs[b.sel[0]]);
         if nontrivial {
             self.rep.nontrivial += 1;
@@ -475,6 +478,10 @@ pub fn sweep<'a, T, MO, MV>(
         }
     }
 
+    run.rep.refs_json = Value::Array(
+        run.refs.iter().map(|r| r.as_ref().map(|r| Value::Array(r.iter().map(|c| c.json()).collect())).unwrap_or(Value::Null)).collect(),
+    );
+
     for b in store {
         if b.sel.iter().any(|&q| run.refs[q].is_none()) {
             run.rep.bump("batches_skipped_reference_unavailable", 1);
@@ -485,7 +492,6 @@ pub fn sweep<'a, T, MO, MV>(
         let mut std_ok: Option<bool> = None;
         for layout in 0..4 {
             let proto = &b.protos[layout];
-            run.rep.bump(&format!("calls_layout_{}", LAYOUTS[layout]), 0);
 
             // ---- form 1: predict(&Array2) ----
             let r = guarded(|| Predict::<&Array2<f64>, T>::predict(mo, proto));
